@@ -52,8 +52,9 @@ def verify_tree():
     tool_hist = []
     res = None
     b = None
-    for attempt in range(6):
-        b = vrun.build(force_assumed=forced)
+    dropped = set()
+    for attempt in range(8):
+        b = vrun.build(force_assumed=forced, drop_ghost=sorted(dropped))
         res = vrun.run_verus(b['text'])
         fails, tool = vrun.classify(res, b['text'], b['registry'])
         for f in fails:
@@ -67,6 +68,18 @@ def verify_tree():
         known = {c.name for c in b['contracts']}
         comp = {t['fn'] for t in tool if t.get('compile') and t['fn'] in known} - forced
         if any(t.get('compile') and t['fn'] not in known for t in tool):
+            # a compile error outside every function under contract: if it sits in a ghost-addition item (a lemma or a
+            # ghost impl that mentions something the edited tree no longer has), drop that item and try again - the
+            # functions whose proofs used it then fail to compile themselves and are handled individually
+            new_drop = set()
+            for t in tool:
+                if t.get('compile') and t['fn'] not in known:
+                    gi = vrun.ghost_item_at(b['text'], t['line'])
+                    if gi and gi not in dropped:
+                        new_drop.add(gi)
+            if new_drop:
+                dropped |= new_drop
+                continue
             comp = set()
             if not hard:
                 break
@@ -96,7 +109,7 @@ def verify_tree():
             if ok_seed is not None:
                 all_fail = [f for f in all_fail if f['fn'] != fn]
                 tool = [t for t in tool if t['fn'] != fn]
-    return {'build': b, 'failures': all_fail, 'tool': tool + [t for t in tool_hist if t not in tool], 'res': res, 'forced': sorted(forced), 'retried': retried}
+    return {'build': b, 'failures': all_fail, 'tool': tool + [t for t in tool_hist if t not in tool], 'res': res, 'forced': sorted(forced), 'retried': retried, 'dropped_ghost': sorted(dropped)}
 
 
 def fn_results(res):
@@ -542,6 +555,7 @@ def main():
             'hidden_state_scan': ('clean: no static mut / interior mutability / globals / time / randomness / unsafe in src (excluding src/tests)' if pid == 'C14' and not scan_hits else scan_hits),
             'verus_run_cached': res.get('cached', False), 'verus_wall_s': res.get('wall_s'),
             'forced_assumed_after_module_abort': V['forced'],
+            'ghost_items_dropped_because_they_no_longer_compile': ['%s: %s' % d_ for d_ in V.get('dropped_ghost', [])],
             'failing_functions_retried_with_other_seeds': {k_: ('discharged with seed %s' % v_ if v_ is not None else 'still failing') for k_, v_ in V.get('retried', {}).items()},
         },
         'assumptions': props.assumptions(b, pid),
